@@ -113,7 +113,7 @@ func vpC16Single(tname string) {
 	ti := vpTypeIndex(tname)
 	positions := vpC16Positions(tname)
 	pos := positions[vpChoice(len(positions))]
-	shape := []int{0, 1, 2, 3, 4, 6}[vpChoice(6)]
+	shape := []int{0, 1, 2, 3, 4, 6, 10}[vpChoice(7)]
 	x := vpNew(ti)
 	vpSetField(x, 0, 0, 'i')
 	f := vpFieldIndex(ti, pos)
@@ -135,7 +135,7 @@ func vpC16Single(tname string) {
 		vpAssert("object-with-id-becomes-its-id/"+cell, got != nil && IsIRI(got) && got.GetLink() == orig.GetID())
 	case 0:
 		vpAssert("iri-unchanged/"+cell, got != nil && IsIRI(got) && got.GetLink() == orig.GetLink())
-	case 3:
+	case 3, 10:
 		vpAssert("link-unchanged/"+cell, got == orig)
 	case 2:
 		vpAssert("idless-object-unchanged/"+cell, got == orig)
@@ -163,7 +163,7 @@ func vpC16List(tname string, n int) {
 	var col ItemCollection
 	var shapes []int
 	for i := 0; i < n; i++ {
-		s := vpChoice(5)
+		s := vpChoice(6)
 		shapes = append(shapes, s)
 		tag := byte('a' + 2*i)
 		switch s {
@@ -175,6 +175,8 @@ func vpC16List(tname string, n int) {
 			col = append(col, &Object{Type: NoteType, Name: vpMk_NLV(0, tag)})
 		case 3:
 			col = append(col, &Link{Type: MentionType, Href: vpMkIRI(tag)})
+		case 5:
+			col = append(col, &Link{ID: vpMkIRI(tag + 1), Type: MentionType, Href: vpMkIRI(tag)})
 		default:
 			col = append(col, &Actor{ID: vpMkIRI(tag), Type: PersonType})
 		}
@@ -212,7 +214,7 @@ func vpC16List(tname string, n int) {
 				vpAssert("member-iri-unchanged/"+cell, vpEqItem(got[i], orig[i]))
 			case 2:
 				vpAssert("member-idless-unchanged/"+cell, got[i] == orig[i])
-			case 3:
+			case 3, 5:
 				vpAssert("member-link-unchanged/"+cell, got[i] == orig[i])
 			}
 		}
